@@ -214,6 +214,19 @@ func runE3(p *an.Prog, r *an.Result) {
 		} else {
 			r.Bad(name, "cause is not the wrapped error", st.Pos(), "Cause() must return the error that was wrapped")
 		}
+		// a wrapper without a position is looked through: where the error being wrapped is itself a
+		// located error (that is why it gets wrapped again: it had no position), its cause is what is kept
+		looksThrough := false
+		for _, o := range an.Origins(st.Val, an.StepValue) {
+			if c := an.CallOf(o); c != nil && c.IsInvoke() && c.Method.Name() == "Cause" {
+				looksThrough = true
+			}
+		}
+		if looksThrough {
+			r.OK(name, "a wrapper without position is looked through", st.Pos(), "one origin of the kept cause is the wrapped error's own Cause()")
+		} else {
+			r.Bad(name, "a wrapper without position is not looked through", st.Pos(), "an error that was first wrapped where no position was known (the flush at the end of a sequence, a trim write, a raw node) and is wrapped again by an enclosing block ends up double-wrapped: Cause() is the inner wrapper, not the writer's or the filter's error")
+		}
 		// what is kept as the cause is what the message was made from: a located error without
 		// position is looked through for both, or for neither
 		if ec := an.CallOf(fa.X); ec != nil && an.CallName(ec) == "parser.Errorf" && len(ec.Args) >= 3 {
@@ -639,4 +652,176 @@ func runD3(p *an.Prog, r *an.Result) {
 		})
 	}
 	r.Floor("entry points", 10)
+}
+
+// ---------------------------------------------------------------------------
+// E9
+
+func init() {
+	register("E9", "an error is never flattened into the text of a new error: where an error value (or its Error() text) is an argument of an error constructor, the new error keeps it as its cause (%w, or a store into the cause field as WrapError does)", runE9)
+}
+
+// implementsError: values of type t have an Error() string method.
+func implementsError(t types.Type) bool {
+	et := types.Universe.Lookup("error").Type().Underlying().(*types.Interface)
+	return types.Implements(t, et) || types.Implements(types.NewPointer(t), et)
+}
+
+func runE9(p *an.Prog, r *an.Result) {
+	roles := GetRoles(p)
+	// the constructors that make an error from a message
+	isCtor := func(c *ssa.CallCommon) (string, bool) {
+		if c.IsInvoke() {
+			if c.Method.Name() == "Errorf" {
+				return an.CallName(c), true
+			}
+			return "", false
+		}
+		callee := c.StaticCallee()
+		if callee == nil {
+			return "", false
+		}
+		cn := an.CallName(c)
+		switch cn {
+		case "fmt.Errorf", "errors.New":
+			return cn, true
+		}
+		if p.InModule(callee) && callee.Signature.Results().Len() == 1 && implementsError(callee.Signature.Results().At(0).Type()) {
+			// a module function that formats its arguments into an error: ...(format string, args ...any)
+			ps := callee.Signature.Params()
+			if callee.Signature.Variadic() && ps.Len() >= 2 {
+				if b, ok := ps.At(ps.Len() - 2).Type().Underlying().(*types.Basic); ok && b.Kind() == types.String {
+					return cn, true
+				}
+			}
+		}
+		return "", false
+	}
+	// the error values among the arguments: an error itself, or the text of one
+	errorArgs := func(c *ssa.CallCommon) []ssa.Value {
+		var out []ssa.Value
+		var elems []ssa.Value
+		for _, a := range c.Args {
+			elems = append(elems, a)
+			if sl, ok := a.(*ssa.Slice); ok {
+				if al, ok := sl.X.(*ssa.Alloc); ok && al.Referrers() != nil {
+					for _, au := range *al.Referrers() {
+						if ia, ok := au.(*ssa.IndexAddr); ok {
+							elems = append(elems, an.Stores(ia)...)
+						}
+					}
+				}
+			}
+		}
+		for _, e := range elems {
+			v := e
+			for {
+				if mi, ok := v.(*ssa.MakeInterface); ok {
+					v = mi.X
+					continue
+				}
+				if ci, ok := v.(*ssa.ChangeInterface); ok {
+					v = ci.X
+					continue
+				}
+				break
+			}
+			if call := an.CallOf(v); call != nil && call.IsInvoke() && call.Method.Name() == "Error" && implementsError(call.Value.Type()) {
+				out = append(out, call.Value)
+				continue
+			}
+			if _, isConst := v.(*ssa.Const); isConst {
+				continue
+			}
+			if _, isSlice := v.Type().Underlying().(*types.Slice); isSlice {
+				continue
+			}
+			if implementsError(v.Type()) {
+				out = append(out, v)
+			}
+		}
+		return out
+	}
+	for _, fn := range p.Funcs {
+		if fn.Blocks == nil || isMainPkg(fn) || fn.Pkg == nil || p9OutOfScope(p, fn) != "" && !strings.Contains(p9OutOfScope(p, fn), "goyacc") {
+			continue
+		}
+		name := roles.Label(fn)
+		an.EachInstr(fn, func(in ssa.Instruction) {
+			call, ok := in.(*ssa.Call)
+			if !ok {
+				return
+			}
+			cn, ok := isCtor(&call.Call)
+			if !ok {
+				return
+			}
+			r.Counts["error constructor calls"]++
+			eargs := errorArgs(&call.Call)
+			if len(eargs) == 0 {
+				return
+			}
+			r.Counts["constructed from an error"]++
+			construct := cn + "(… " + describe(p, eargs[0]) + " …)"
+			// %w keeps the error
+			if cn == "fmt.Errorf" {
+				if f, ok := an.ConstString(call.Call.Args[0]); ok && strings.Contains(f, "%w") {
+					r.OK(name, construct, call.Pos(), "wrapped with %w")
+					return
+				}
+			}
+			// the new error's cause field is set to the error (or to its cause)
+			kept := false
+			if call.Referrers() != nil {
+				var visit func(v ssa.Value, depth int)
+				seen := map[ssa.Value]bool{}
+				visit = func(v ssa.Value, depth int) {
+					if v == nil || seen[v] || depth > 4 || v.Referrers() == nil {
+						return
+					}
+					seen[v] = true
+					for _, u := range *v.Referrers() {
+						switch x := u.(type) {
+						case *ssa.FieldAddr:
+							if fieldName(x) == "cause" {
+								for _, sv := range an.Stores(x) {
+									for _, ea := range eargs {
+										if an.Reaches(sv, an.StepValue, func(o ssa.Value) bool {
+											if o == ea {
+												return true
+											}
+											if c := an.CallOf(o); c != nil && c.IsInvoke() && c.Method.Name() == "Cause" {
+												return true
+											}
+											return false
+										}) {
+											kept = true
+										}
+									}
+								}
+							}
+						case *ssa.Store:
+							if x.Val == v {
+								visit(x.Addr, depth+1)
+							}
+						case *ssa.UnOp:
+							visit(x, depth+1)
+						case *ssa.Phi:
+							visit(x, depth+1)
+						case *ssa.MakeInterface, *ssa.ChangeType, *ssa.TypeAssert:
+							visit(x.(ssa.Value), depth+1)
+						}
+					}
+				}
+				visit(call, 0)
+			}
+			if kept {
+				r.OK(name, construct, call.Pos(), "the new error's cause field is set to the error it was made from")
+				return
+			}
+			r.Bad(name, construct, call.Pos(), fmt.Sprintf("%s formats an error into the message of a new one and does not keep it: Cause() of the result is not the original error, and a location the original carried is lost", an.FuncName(fn)))
+		})
+	}
+	r.Floor("error constructor calls", 20)
+	r.Floor("constructed from an error", 1)
 }
